@@ -65,16 +65,16 @@ solve_one_contract("bc", "nucs/solvers/bound_consistency_algorithm.py::bound_con
     [("C17.bc_law", f"{dstat('STATS_IDX_ALG_BC_NB')} == 1 + {dstat(CH)} + {dstat(BT)}")])
 
 # semantic variant: no solution of the stack is lost by a search (ghost solution sigma, ghost level witness lv); heavier queries, own budget
-solve_one_contract("sem", "iface:ConsistencyAlg",
-    [("C17.backtracks", f"{dstat(BT)} >= bt"), ("C02.remaining", f"implies({SOL_HYP}, 0 <= lv and lv <= stacks_top[0] and in_box({SS}, lv))")],
-    [("C02.no_loss", f"implies({SOL_HYP}, result is not None and 0 <= lv and lv <= stacks_top[0] and in_box({SS}, lv))"),
-     ("C02.none_means_empty", f"implies(result is None, not ({SOL_HYP}))")], timeout_ms=400000,
-    step_ensures=[
+SEM_INV = [("C17.backtracks", f"{dstat(BT)} >= bt"), ("C02.remaining", f"implies({SOL_HYP}, 0 <= lv and lv <= stacks_top[0] and in_box({SS}, lv))")]
+SEM_ENS = [("C02.no_loss", f"implies({SOL_HYP}, result is not None and 0 <= lv and lv <= stacks_top[0] and in_box({SS}, lv))"),
+           ("C02.none_means_empty", f"implies(result is None, not ({SOL_HYP}))")]
+SEM_STEP = [
         ("C02.step_refuted", f"implies(({SOL_HYP}) and status == PROBLEM_INCONSISTENT, it0(lv) < {T_IT0})"),
         ("C02.step_lower", f"implies(({SOL_HYP}) and it0(lv) < {T_IT0}, lv == it0(lv) and in_box({SS}, it0(lv)))"),
         ("C02.step_cover", f"implies(({SOL_HYP}) and status == PROBLEM_UNBOUND and it0(lv) == {T_IT0}, {INL(T_IT0)} or {INL(T_IT0 + ' + 1')} or ({T_IT0} + 2 <= stacks_top[0] and {INL(T_IT0 + ' + 2')}))"),
         ("C02.step_range", f"implies({SOL_HYP}, 0 <= lv and lv <= stacks_top[0])"),
-    ])
+    ]
+solve_one_contract("sem", "iface:ConsistencyAlg", SEM_INV, SEM_ENS, timeout_ms=400000, step_ensures=SEM_STEP)
 REG.contracts["nucs/solvers/backtrack_solver.py::solve_one#sem"].props = ["C02", "C03", "C10"]
 
 # ------------------------------------------------------------------ acceptance variant (C01 composition, full-mask constraints, BC)
@@ -93,3 +93,16 @@ _c = REG.contracts["nucs/solvers/backtrack_solver.py::solve_one#acc"]
 _c.props = ["C01"]
 _c.requires = list(_c.requires) + [ALLFULL] + [(n + "0", e) for n, e in ACC_STATE]
 _c.extra["defs"] = [V_DEF]
+
+# ------------------------------------------------------------------ at-most-once (C02): an assignment that is in no level of the stack never comes back
+ABSENT_KEPT = f"implies(absent({SS0}, old(stacks_top)[0]), absent({SS}, stacks_top[0]))"
+solve_one_contract("once", "iface:ConsistencyAlg",
+    [(f"C17.backtracks", f"{dstat(BT)} >= bt"), ("C02.absent", ABSENT_KEPT)],
+    [("C02.absent", f"implies(result is not None, {ABSENT_KEPT})")], timeout_ms=200000,
+    step_ensures=[("C02.top_absent", f"implies(absent({SS0}, old(stacks_top)[0]), trig({T_IT0}) == {T_IT0} and not in_box(it0({SS}), {T_IT0}))")])
+REG.contracts["nucs/solvers/backtrack_solver.py::solve_one#once"].props = ["C02"]
+
+# both directions in one contract (what the enumeration loop of BacktrackSolver.solve needs): no loss + never again
+solve_one_contract("enum", "iface:ConsistencyAlg", SEM_INV + [("C02.absent", ABSENT_KEPT)], SEM_ENS + [("C02.absent", f"implies(result is not None, {ABSENT_KEPT})")], timeout_ms=400000,
+    step_ensures=SEM_STEP + [("C02.top_absent", f"implies(absent({SS0}, old(stacks_top)[0]), trig({T_IT0}) == {T_IT0} and not in_box(it0({SS}), {T_IT0}))")])
+REG.contracts["nucs/solvers/backtrack_solver.py::solve_one#enum"].props = ["C02"]
